@@ -97,7 +97,9 @@ def _residue(draw, resname, prefix):
             params = []
         vs = {"kind": kind, "cons": cons, "params": params, "name": f"{prefix}v"}
     atoms = [{"name": nm, "type": draw(st.sampled_from(TYPES))} for nm in names]
-    return {"resname": resname, "atoms": atoms, "bonds": bonds, "angles": angles, "impropers": impropers, "vs": vs}
+    # the force constant plays no part in the geometry a template has to meet: 0 (an angle kept for bookkeeping) too
+    return {"resname": resname, "atoms": atoms, "bonds": bonds, "angles": angles, "impropers": impropers, "vs": vs,
+            "angle_fc": draw(st.sampled_from(["50", "50", "0", "0.0", "1250.5"]))}
 
 
 @st.composite
@@ -205,7 +207,7 @@ def render_top(spec):
                 else:
                     secs["constraints"].append(f"{f + a} {f + b} 1 {_f(length)}")
             for a, b, c, func, val in rd["angles"]:
-                secs["angles"].append(f"{f + a} {f + b} {f + c} {func} {_f(val)} 50")
+                secs["angles"].append(f"{f + a} {f + b} {f + c} {func} {_f(val)} {rd.get('angle_fc', '50')}")
             for a, b, c, d, val in rd["impropers"]:
                 secs["dihedrals"].append(f"{f + a} {f + b} {f + c} {f + d} 2 {_f(val)} 100")
             if rd["vs"]:
